@@ -315,6 +315,10 @@ func (s *Sim) answer(r *Req, outcome string) {
 	}
 	r.Answered = true
 	r.Outcome = outcome
+	if i := strings.Index(outcome, "|meta:"); i >= 0 {
+		// the meta object is kept apart: Outcome is what the oracles compare
+		r.Outcome, r.MetaJSON = outcome[:i], outcome[i+6:]
+	}
 	r.AnsStep, r.AnsCut = s.Step, s.Cut
 	s.mu.Unlock()
 	tr := s.tr
